@@ -218,6 +218,90 @@ func roundTripCase(c *core.Ctx, idx int, mode int) {
 	if idx%7 == 5 && tc.typ.Kind() == reflect.Struct && last.IsValid() {
 		sizedBodies(c, idx, tc, last, mode)
 	}
+	if idx%5 == 3 && mode == modeC01 && last.IsValid() && !model.HasMultiMap(last) {
+		lookAlikes(c, idx, tc, last)
+	}
+}
+
+// setStrings sets every string below v (map keys excepted) to s and returns how many it set
+func setStrings(v reflect.Value, s string, depth int) int {
+	if depth > 10 {
+		return 0
+	}
+	n := 0
+	switch v.Kind() {
+	case reflect.String:
+		if v.CanSet() {
+			v.SetString(s)
+			n++
+		}
+	case reflect.Ptr:
+		if !v.IsNil() {
+			n += setStrings(v.Elem(), s, depth+1)
+		}
+	case reflect.Struct:
+		if v.Type() == model.TimeT {
+			return 0
+		}
+		for i := 0; i < v.NumField(); i++ {
+			if v.Type().Field(i).IsExported() {
+				n += setStrings(v.Field(i), s, depth+1)
+			}
+		}
+	case reflect.Slice:
+		for i := 0; i < v.Len(); i++ {
+			n += setStrings(v.Index(i), s, depth+1)
+		}
+	case reflect.Map:
+		for _, k := range v.MapKeys() {
+			e := reflect.New(v.Type().Elem()).Elem()
+			e.Set(v.MapIndex(k))
+			if m := setStrings(e, s, depth+1); m > 0 {
+				v.SetMapIndex(k, e)
+				n += m
+			}
+		}
+	}
+	return n
+}
+
+// lookAlikes round-trips two copies of a value whose strings are all one or the other of two
+// strings of equal length that the usual 32-bit hashes and checksums cannot tell apart, one after
+// the other on the same instances: whatever a codec remembers about the first must not stand in
+// for the second.
+func lookAlikes(c *core.Ctx, idx int, tc *tcase, v reflect.Value) {
+	rec := c.Rec
+	pairs := c19CollisionsOnce()
+	if len(pairs) == 0 {
+		return
+	}
+	for k := 0; k < 3; k++ {
+		pair := pairs[(idx/5+k)%len(pairs)]
+		for _, p := range []*plenc.Plenc{tc.p, sharedInst(tc)} {
+			for _, s := range pair {
+				w := reflect.New(tc.typ).Elem()
+				w.Set(model.DeepCopy(v))
+				if setStrings(w, s, 0) == 0 {
+					return
+				}
+				data, err, pn := marshal(p, nil, ptrTo(w))
+				out := reflect.New(tc.typ)
+				if err == nil && pn == "" {
+					err, pn = unmarshal(p, data, out.Interface())
+				}
+				rec.Eval(1)
+				if err != nil || pn != "" {
+					rec.Violation("round-trip", fmt.Sprintf("[%s] round trip of a value whose strings are all %q failed: %v %s\n  type %s", tc.name, s, err, trunc1(pn), typeString(tc.typ)), caseExtra(tc, w, data))
+					return
+				}
+				if d := model.Diff(tc.cfg.Normalise(w, "", true), out.Elem(), "$"); d != "" {
+					rec.Violation("round-trip", fmt.Sprintf("Unmarshal(Marshal(v)) differs from v [%s] for the second of two values whose strings (%q, %q) have equal length and equal 32-bit hashes: %s\n  type %s\n  value %s\n  got   %s", tc.name, pair[0], pair[1], d, typeString(tc.typ), model.Show(w), model.Show(out.Elem())), caseExtra(tc, w, data))
+					return
+				}
+			}
+		}
+	}
+	rec.Count("look_alike_string_round_trips", 1)
 }
 
 // sizedBodies pads a string or []byte field of struct value v until v's encoding is exactly b-12..b+1
